@@ -7,6 +7,10 @@
 package c09
 
 import (
+	"github.com/cosmos/cosmos-sdk/codec"
+
+	"encoding/json"
+
 	"bytes"
 	"fmt"
 	"math/big"
@@ -78,8 +82,11 @@ type Variant struct {
 	Transfer     bool
 	// Params set by MsgUpdateParams from the authority in the fixture; empty Tax = keep the genesis defaults
 	// (tax 0.4, mint-fee ratio 0.1, base fee 60000stake).
-	Tax, MintRatio  string
-	BaseFee         int64
+	Tax, MintRatio string
+	BaseFee        int64
+	// Ownerless: the chain's genesis lists a token "gen" (min unit "ugen", max 5, mintable, nothing issued)
+	// without an owner — valid genesis content. Nobody is its current owner, so nobody may edit, mint or hand it over.
+	Ownerless       bool
 	Quick, Thorough int
 }
 
@@ -187,7 +194,18 @@ func New(v Variant) func() (*mc.Env, mc.Driver) {
 			// plenty for fees, while the native token (max supply 10^10, scale 0) stays within its own cap
 			bal[a] = sdk.NewCoins(mc.C(feeDenom, 1_000_000_000))
 		}
-		e := mc.NewEnv(mc.EnvOptions{Balances: bal})
+		opts := mc.EnvOptions{Balances: bal}
+		if v.Ownerless {
+			opts.GenesisMutators = map[string]func(cdc codec.Codec, raw json.RawMessage) json.RawMessage{
+				tokentypes.ModuleName: func(cdc codec.Codec, raw json.RawMessage) json.RawMessage {
+					var g v1.GenesisState
+					cdc.MustUnmarshalJSON(raw, &g)
+					g.Tokens = append(g.Tokens, v1.Token{Symbol: "gen", Name: "genesis token", Scale: 0, MinUnit: "ugen", InitialSupply: 0, MaxSupply: 5, Mintable: true})
+					return cdc.MustMarshalJSON(&g)
+				},
+			}
+		}
+		e := mc.NewEnv(opts)
 		d := &Driver{V: v, tax: rat("0.4"), ratio: rat("0.1"), base: big.NewInt(60000)}
 		if v.Tax != "" {
 			d.tax, d.ratio, d.base = rat(v.Tax), rat(v.MintRatio), big.NewInt(v.BaseFee)
@@ -212,6 +230,9 @@ func (d *Driver) Init(e *mc.Env) *mc.State {
 		if !out.OK {
 			panic("fixture: update params failed: " + out.String())
 		}
+	}
+	if d.V.Ownerless {
+		s.Model.(*model).toks["gen"] = &tok{Symbol: "gen", MinUnit: "ugen", Name: "genesis token", Max: 5, Mintable: true, Supply: new(big.Int), IssueFee: new(big.Int)}
 	}
 	// the harness's idea of the parameters must be what the chain runs with
 	pr, err := e.Token.Params(s.Ctx, &v1.QueryParamsRequest{})
@@ -594,7 +615,11 @@ func (d *Driver) Check(e *mc.Env, s *mc.State) []mc.Finding {
 		cmp("initial-supply", got.InitialSupply, t.Initial)
 		cmp("max-supply", got.MaxSupply, t.Max)
 		cmp("mintable", got.Mintable, t.Mintable)
-		cmp("owner", got.Owner, addrOf(t.Owner))
+		wantOwner := ""
+		if t.Owner != "" {
+			wantOwner = addrOf(t.Owner)
+		}
+		cmp("owner", got.Owner, wantOwner)
 		// the min unit resolves to the same token, unless that string is also some token's symbol (the
 		// query resolves symbols first; the property treats the two name spaces separately)
 		if m.toks[t.MinUnit] == nil && t.MinUnit != nativeSymbol {
